@@ -145,9 +145,16 @@ def condLe : Option (String × Bool) → Option (String × Bool) → Bool
 def GKey.le (a b : GKey) : Bool :=
   if a.cond = b.cond then strLe a.group b.group else condLe a.cond b.cond
 
-/-- `sorted(interactions, key=...)`: a stable sort by the key -/
-def sortByKey {α : Type} (l : List (GKey × α)) : List (GKey × α) :=
-  l.mergeSort (fun a b => a.1.le b.1)
+/-- insert `x` (which stood before all of `l`) in front of the first element that is not smaller -/
+def insertByKey {α : Type} (x : GKey × α) : List (GKey × α) → List (GKey × α)
+  | [] => [x]
+  | y :: ys => if x.1.le y.1 then x :: y :: ys else y :: insertByKey x ys
+
+/-- `sorted(interactions, key=...)`: a stable sort by the key (as an insertion sort; any stable sort
+gives the same list) -/
+def sortByKey {α : Type} : List (GKey × α) → List (GKey × α)
+  | [] => []
+  | x :: xs => insertByKey x (sortByKey xs)
 
 /-- `itertools.groupby` on the sorted list: maximal runs of equal keys -/
 def groupRuns {α : Type} : List (GKey × α) → List (GKey × List α)
@@ -177,10 +184,21 @@ def blockItems {α : Type} (b : GKey × List α) : List (Item α) :=
   ++ (if b.1.group = "" then [] else [Item.group b.1.group])
   ++ b.2.map Item.entry
 
+/-- the key of every entry, in table order; the first failing key function stops everything -/
+def keyed {α : Type} (mt : α → Meta) : List α → Except WErr (List (GKey × α))
+  | [] => .ok []
+  | e :: es =>
+    match gkeyOf (mt e) with
+    | .error x => .error x
+    | .ok k =>
+      match keyed mt es with
+      | .error x => .error x
+      | .ok r => .ok ((k, e) :: r)
+
 /-- the items of one parameter file, in the order they are written; the sort key of every entry is
 computed before anything else (`sorted` calls the key function on the whole list first) -/
 def layout {α : Type} (directive : String) (mt : α → Meta) (es : List α) : Except WErr (List (Item α)) :=
-  match es.mapM (fun e => (gkeyOf (mt e)).map (fun k => (k, e))) with
+  match keyed mt es with
   | .error e => .error e
   | .ok keyed => .ok (Item.directive directive :: (groupRuns (sortByKey keyed)).flatMap blockItems)
 
@@ -204,22 +222,35 @@ def joinWords : List String → List Char
 
 def F8 (x : Q) : List Char := fmtFixed 8 x
 
+/-- `a1, a2 = nb_params.atoms` for two atoms; "self interaction": any other length takes `atoms[0]` twice;
+`none`: IndexError of an empty tuple -/
+def nbPair (p : NbParam) : Option (String × String) :=
+  match p.atoms with
+  | [a, b] => some (a, b)
+  | a :: _ => some (a, a)
+  | [] => none
+
+/-- `if nb_params.meta.get('comment'): ";" + " ".join(...)` -/
+def nbComment (m : Meta) : List Char :=
+  match m.comment with
+  | some (w :: ws) => ';' :: joinWords (w :: ws)
+  | _ => []
+
+/-- `if 'comment' in atomtype.meta: ";" + " ".join(...)` -/
+def atComment (m : Meta) : List Char :=
+  match m.comment with
+  | some ws => ';' :: joinWords ws
+  | none => []
+
 /-- `f"{a1} {a2} 1 {nb1:3.8F} {nb2:3.8F} {comments}"` (without the newline) -/
 def nbLine (c6 : Bool) (p : NbParam) : Except WErr (List Char) :=
-  match (match p.atoms with
-         | [a, b] => some (a, b)
-         | a :: _ => some (a, a)            -- "self interaction": any other length takes atoms[0] twice
-         | [] => none) with
+  match nbPair p with
   | none => .error .indexError
   | some (a1, a2) =>
     match nbNumbers c6 p.sigma p.eps with
     | .error e => .error e
     | .ok (n1, n2) =>
-      let comments : List Char :=
-        match p.mt.comment with
-        | some (w :: ws) => ';' :: joinWords (w :: ws)        -- `if nb_params.meta.get('comment')`
-        | _ => []
-      .ok (a1.toList ++ ' ' :: a2.toList ++ " 1 ".toList ++ F8 n1 ++ ' ' :: F8 n2 ++ ' ' :: comments)
+      .ok (a1.toList ++ ' ' :: a2.toList ++ " 1 ".toList ++ F8 n1 ++ ' ' :: F8 n2 ++ ' ' :: nbComment p.mt)
 
 /-- `f"{atype} {mass} {charge} A {nb1:3.8F} {nb2:3.8F} {comments}"` -/
 def atLine (c6 : Bool) (t : AtType) : Except WErr (List Char) :=
@@ -228,12 +259,8 @@ def atLine (c6 : Bool) (t : AtType) : Except WErr (List Char) :=
     match nbNumbers c6 t.sigma t.eps with
     | .error e => .error e
     | .ok (n1, n2) =>
-      let comments : List Char :=
-        match t.mt.comment with
-        | some ws => ';' :: joinWords ws                      -- `if 'comment' in atomtype.meta`
-        | none => []
       .ok (atype.toList ++ ' ' :: mass.toList ++ ' ' :: charge.toList ++ " A ".toList
-            ++ F8 n1 ++ ' ' :: F8 n2 ++ ' ' :: comments)
+            ++ F8 n1 ++ ' ' :: F8 n2 ++ ' ' :: atComment t.mt)
   | _, _, _ => .error .keyError
 
 def Item.text {α : Type} (data : α → Except WErr (List Char)) : Item α → Except WErr (List Char)
